@@ -169,3 +169,345 @@ pub fn h_of(m: &merklehash::MerkleHash) -> H {
 pub fn m_of(h: &H) -> merklehash::MerkleHash {
     merklehash::MerkleHash::from(h)
 }
+
+// ---------------------------------------------------------------------------------------------
+// Independent shard parser (from the file format: 48-byte header, 48-byte records with all-ones bookends,
+// three lookup tables, 200-byte footer).
+
+pub const SHARD_TAG: [u8; 32] = [
+    b'H', b'F', b'R', b'e', b'p', b'o', b'M', b'e', b't', b'a', b'D', b'a', b't', b'a', 0, 85, 105, 103, 69, 106, 123,
+    129, 87, 131, 165, 189, 217, 92, 205, 209, 74, 169,
+];
+pub const SHARD_HEADER_LEN: usize = 48;
+pub const SHARD_FOOTER_LEN: usize = 200;
+pub const FLAG_VERIFICATION: u32 = 1 << 31;
+pub const FLAG_METADATA_EXT: u32 = 1 << 30;
+
+#[derive(Clone, Debug, PartialEq, Eq)]
+pub struct RefSegment {
+    pub xorb: H,
+    pub flags: u32,
+    pub bytes: u32,
+    pub start: u32,
+    pub end: u32,
+}
+
+#[derive(Clone, Debug, PartialEq, Eq)]
+pub struct RefFile {
+    pub hash: H,
+    pub flags: u32,
+    pub segments: Vec<RefSegment>,
+    pub verification: Vec<H>,
+    pub sha256: Option<H>,
+}
+
+#[derive(Clone, Debug, PartialEq, Eq)]
+pub struct RefXorbRec {
+    pub hash: H,
+    pub flags: u32,
+    pub num_bytes: u32,
+    pub num_bytes_on_disk: u32,
+    /// (chunk hash, length, byte start)
+    pub chunks: Vec<(H, u32, u32)>,
+}
+
+#[derive(Clone, Debug, Default)]
+pub struct RefFooter {
+    pub version: u64,
+    pub file_info_offset: u64,
+    pub cas_info_offset: u64,
+    pub file_lookup_offset: u64,
+    pub file_lookup_num: u64,
+    pub cas_lookup_offset: u64,
+    pub cas_lookup_num: u64,
+    pub chunk_lookup_offset: u64,
+    pub chunk_lookup_num: u64,
+    pub hmac_key: H,
+    pub creation: u64,
+    pub expiry: u64,
+    pub stored_bytes_on_disk: u64,
+    pub materialized_bytes: u64,
+    pub stored_bytes: u64,
+    pub footer_offset: u64,
+}
+
+#[derive(Clone, Debug, Default)]
+pub struct RefShard {
+    pub header_version: u64,
+    pub footer_size: u64,
+    pub files: Vec<RefFile>,
+    /// record index (in 48-byte units from the start of the file section) of each file header
+    pub file_index: Vec<u32>,
+    pub xorbs: Vec<RefXorbRec>,
+    pub xorb_index: Vec<u32>,
+    pub footer: RefFooter,
+    pub file_lookup: Vec<(u64, u32)>,
+    pub cas_lookup: Vec<(u64, u32)>,
+    pub chunk_lookup: Vec<(u64, u32, u32)>,
+}
+
+fn rd_u32(b: &[u8], off: usize) -> Result<u32, String> {
+    b.get(off..off + 4)
+        .map(|s| u32::from_le_bytes([s[0], s[1], s[2], s[3]]))
+        .ok_or_else(|| format!("short read u32 at {off}"))
+}
+fn rd_u64(b: &[u8], off: usize) -> Result<u64, String> {
+    b.get(off..off + 8)
+        .map(|s| u64::from_le_bytes([s[0], s[1], s[2], s[3], s[4], s[5], s[6], s[7]]))
+        .ok_or_else(|| format!("short read u64 at {off}"))
+}
+fn rd_h(b: &[u8], off: usize) -> Result<H, String> {
+    b.get(off..off + 32)
+        .map(|s| {
+            let mut h = [0u8; 32];
+            h.copy_from_slice(s);
+            h
+        })
+        .ok_or_else(|| format!("short read hash at {off}"))
+}
+
+pub fn trunc(h: &H) -> u64 {
+    u64::from_le_bytes([h[0], h[1], h[2], h[3], h[4], h[5], h[6], h[7]])
+}
+
+pub fn ref_shard_parse(b: &[u8]) -> Result<RefShard, String> {
+    let mut s = RefShard::default();
+    if b.len() < SHARD_HEADER_LEN + SHARD_FOOTER_LEN {
+        return Err(format!("too short for a shard: {}", b.len()));
+    }
+    if b[..32] != SHARD_TAG {
+        return Err("bad tag".into());
+    }
+    s.header_version = rd_u64(b, 32)?;
+    s.footer_size = rd_u64(b, 40)?;
+    if s.footer_size as usize != SHARD_FOOTER_LEN {
+        return Err(format!("footer size {}", s.footer_size));
+    }
+    let fo = b.len() - SHARD_FOOTER_LEN;
+    let f = &mut s.footer;
+    f.version = rd_u64(b, fo)?;
+    f.file_info_offset = rd_u64(b, fo + 8)?;
+    f.cas_info_offset = rd_u64(b, fo + 16)?;
+    f.file_lookup_offset = rd_u64(b, fo + 24)?;
+    f.file_lookup_num = rd_u64(b, fo + 32)?;
+    f.cas_lookup_offset = rd_u64(b, fo + 40)?;
+    f.cas_lookup_num = rd_u64(b, fo + 48)?;
+    f.chunk_lookup_offset = rd_u64(b, fo + 56)?;
+    f.chunk_lookup_num = rd_u64(b, fo + 64)?;
+    f.hmac_key = rd_h(b, fo + 72)?;
+    f.creation = rd_u64(b, fo + 104)?;
+    f.expiry = rd_u64(b, fo + 112)?;
+    // 6 reserved words
+    f.stored_bytes_on_disk = rd_u64(b, fo + 168)?;
+    f.materialized_bytes = rd_u64(b, fo + 176)?;
+    f.stored_bytes = rd_u64(b, fo + 184)?;
+    f.footer_offset = rd_u64(b, fo + 192)?;
+    let footer = s.footer.clone();
+    if footer.footer_offset as usize != fo {
+        return Err(format!("footer_offset {} but footer starts at {}", footer.footer_offset, fo));
+    }
+    // file section
+    let mut pos = footer.file_info_offset as usize;
+    if pos != SHARD_HEADER_LEN {
+        return Err(format!("file section at {pos}"));
+    }
+    let base = pos;
+    loop {
+        let h = rd_h(b, pos)?;
+        if h == [0xffu8; 32] {
+            pos += 48;
+            break;
+        }
+        let flags = rd_u32(b, pos + 32)?;
+        let n = rd_u32(b, pos + 36)? as usize;
+        s.file_index.push(((pos - base) / 48) as u32);
+        pos += 48;
+        let mut segs = Vec::with_capacity(n.min(1 << 16));
+        for _ in 0..n {
+            segs.push(RefSegment {
+                xorb: rd_h(b, pos)?,
+                flags: rd_u32(b, pos + 32)?,
+                bytes: rd_u32(b, pos + 36)?,
+                start: rd_u32(b, pos + 40)?,
+                end: rd_u32(b, pos + 44)?,
+            });
+            pos += 48;
+        }
+        let mut ver = Vec::new();
+        if flags & FLAG_VERIFICATION != 0 {
+            for _ in 0..n {
+                ver.push(rd_h(b, pos)?);
+                pos += 48;
+            }
+        }
+        let sha = if flags & FLAG_METADATA_EXT != 0 {
+            let x = rd_h(b, pos)?;
+            pos += 48;
+            Some(x)
+        } else {
+            None
+        };
+        s.files.push(RefFile {
+            hash: h,
+            flags,
+            segments: segs,
+            verification: ver,
+            sha256: sha,
+        });
+    }
+    if pos != footer.cas_info_offset as usize {
+        return Err(format!("cas section expected at {pos}, footer says {}", footer.cas_info_offset));
+    }
+    let base = pos;
+    loop {
+        let h = rd_h(b, pos)?;
+        if h == [0xffu8; 32] {
+            pos += 48;
+            break;
+        }
+        let flags = rd_u32(b, pos + 32)?;
+        let n = rd_u32(b, pos + 36)? as usize;
+        let nb = rd_u32(b, pos + 40)?;
+        let nd = rd_u32(b, pos + 44)?;
+        s.xorb_index.push(((pos - base) / 48) as u32);
+        pos += 48;
+        let mut chunks = Vec::with_capacity(n.min(1 << 16));
+        for _ in 0..n {
+            let ch = rd_h(b, pos)?;
+            let start = rd_u32(b, pos + 32)?;
+            let len = rd_u32(b, pos + 36)?;
+            chunks.push((ch, len, start));
+            pos += 48;
+        }
+        s.xorbs.push(RefXorbRec {
+            hash: h,
+            flags,
+            num_bytes: nb,
+            num_bytes_on_disk: nd,
+            chunks,
+        });
+    }
+    // lookup tables (may be absent: num == 0)
+    if footer.file_lookup_num > 0 || footer.cas_lookup_num > 0 || footer.chunk_lookup_num > 0 {
+        if pos != footer.file_lookup_offset as usize {
+            return Err(format!("file lookup expected at {pos}, footer says {}", footer.file_lookup_offset));
+        }
+    }
+    let mut p = footer.file_lookup_offset as usize;
+    for _ in 0..footer.file_lookup_num {
+        s.file_lookup.push((rd_u64(b, p)?, rd_u32(b, p + 8)?));
+        p += 12;
+    }
+    if footer.cas_lookup_num > 0 && p != footer.cas_lookup_offset as usize {
+        return Err("cas lookup offset".into());
+    }
+    let mut p = footer.cas_lookup_offset as usize;
+    for _ in 0..footer.cas_lookup_num {
+        s.cas_lookup.push((rd_u64(b, p)?, rd_u32(b, p + 8)?));
+        p += 12;
+    }
+    if footer.chunk_lookup_num > 0 && p != footer.chunk_lookup_offset as usize {
+        return Err("chunk lookup offset".into());
+    }
+    let mut p = footer.chunk_lookup_offset as usize;
+    for _ in 0..footer.chunk_lookup_num {
+        s.chunk_lookup.push((rd_u64(b, p)?, rd_u32(b, p + 8)?, rd_u32(b, p + 12)?));
+        p += 16;
+    }
+    if footer.file_lookup_num + footer.cas_lookup_num + footer.chunk_lookup_num > 0 && p != fo {
+        return Err(format!("tables end at {p}, footer at {fo}"));
+    }
+    Ok(s)
+}
+
+// ---------------------------------------------------------------------------------------------
+// Independent xorb parser: chunk section of 8-byte headers + payload, V1 footer, trailing info length.
+
+#[derive(Clone, Debug, Default)]
+pub struct RefXorbFile {
+    /// (scheme byte, compressed payload, declared uncompressed length)
+    pub chunks: Vec<(u8, Vec<u8>, u32)>,
+    pub footer_hash: H,
+    pub footer_chunk_hashes: Vec<H>,
+    pub boundaries: Vec<u32>,
+    pub unpacked: Vec<u32>,
+    pub num_chunks: u32,
+    pub chunk_section_len: usize,
+}
+
+pub fn ref_xorb_parse(b: &[u8]) -> Result<RefXorbFile, String> {
+    if b.len() < 4 {
+        return Err("too short".into());
+    }
+    let info_len = rd_u32(b, b.len() - 4)? as usize;
+    if info_len + 4 > b.len() {
+        return Err("info length exceeds object".into());
+    }
+    let fs = b.len() - 4 - info_len;
+    let mut x = RefXorbFile {
+        chunk_section_len: fs,
+        ..Default::default()
+    };
+    // footer
+    let f = &b[fs..b.len() - 4];
+    if f.len() < 92 || &f[0..7] != b"XETBLOB" {
+        return Err("footer ident".into());
+    }
+    if f[7] != 1 {
+        return Err(format!("footer version {}", f[7]));
+    }
+    x.footer_hash = rd_h(f, 8)?;
+    let mut p = 40;
+    if &f[p..p + 7] != b"XBLBHSH" {
+        return Err("hash section ident".into());
+    }
+    p += 8;
+    let n = rd_u32(f, p)? as usize;
+    p += 4;
+    for _ in 0..n {
+        x.footer_chunk_hashes.push(rd_h(f, p)?);
+        p += 32;
+    }
+    if f.get(p..p + 7) != Some(b"XBLBBND") {
+        return Err("boundary section ident".into());
+    }
+    p += 8;
+    let n2 = rd_u32(f, p)? as usize;
+    p += 4;
+    if n2 != n {
+        return Err("chunk count mismatch".into());
+    }
+    for _ in 0..n {
+        x.boundaries.push(rd_u32(f, p)?);
+        p += 4;
+    }
+    for _ in 0..n {
+        x.unpacked.push(rd_u32(f, p)?);
+        p += 4;
+    }
+    x.num_chunks = rd_u32(f, p)?;
+    p += 12 + 16;
+    if p != f.len() {
+        return Err(format!("footer length {} but parsed {}", f.len(), p));
+    }
+    // chunk section
+    let mut pos = 0usize;
+    while pos < fs {
+        if pos + 8 > fs {
+            return Err("truncated chunk header".into());
+        }
+        let clen = (b[pos + 1] as usize) | (b[pos + 2] as usize) << 8 | (b[pos + 3] as usize) << 16;
+        let scheme = b[pos + 4];
+        let ulen = (b[pos + 5] as u32) | (b[pos + 6] as u32) << 8 | (b[pos + 7] as u32) << 16;
+        if b[pos] != 0 {
+            return Err("chunk header version".into());
+        }
+        pos += 8;
+        if pos + clen > fs {
+            return Err("truncated chunk payload".into());
+        }
+        x.chunks.push((scheme, b[pos..pos + clen].to_vec(), ulen));
+        pos += clen;
+    }
+    Ok(x)
+}
